@@ -150,8 +150,12 @@ def oracle_expm(case, R):
     tolI2 = max(C_TOL * util.EPS * max(kappa, kexp) * sI2, 10 * max(err_i2, err_i1 * h, err_s * h * h))
     # F11 domain: I2 beyond Pade-9 comes from A^-1 formulas (or a raw power series when the
     # LU check fails); measured error grows like cond(A)^2*eps -> known finding for cond > 100
-    illcond = singular or (sv.max() / sv.min() > 100.0)
+    # (F11's error law is cond(A)^2 * eps: its domain is where that exceeds the tolerance of this check - cond > 100
+    # always, and somewhat lower when exp(Ah) itself is well conditioned: cond = 59 gave 1.2x the tolerance)
+    illcond = singular or (sv.max() / sv.min() > 100.0) or (sv.max() / sv.min()) ** 2 > C_TOL * max(kappa, kexp)
     f11 = illcond and nrmAh > THETAS[3]
+    if f11:
+        R.label("F11-domain(by error law)")
     tag = "[pade13-illcond] " if f11 else ""
     # F40 domain: strongly non-normal A (condition number of the exponential far above its norm) with a large
     # norm: the classic scaling-and-squaring of expmint over-scales (no Al-Mohy/Higham norm estimates) and
